@@ -97,6 +97,11 @@ def L(cls, name, **kw):
 
 
 MODELS = {
+    # float non-linearities that model_quantize does not rewrite (elu, softplus): their output tensors stay at the
+    # reference width in the size model
+    "mlp_float_act": {"input": [6], "layers": [
+        L("Dense", "d0", units=4, activation="elu"), L("Dense", "d1", units=3, activation="softplus"),
+        L("Dense", "d2", units=2), L("Activation", "sm", activation="softmax")]},
     "mlp_inline": {"input": [6], "layers": [
         L("Dense", "d0", units=4, activation="relu"), L("Dense", "d1", units=3),
         L("Activation", "a1", activation="relu"), L("Dense", "d2", units=2),
@@ -361,6 +366,7 @@ def scenario_templates(rnd):
 
   T = []
   T.append(("class.mlp_inline", lambda r: base("mlp_inline", {"Dense": _lim3(r), "Activation": [r.choice(BITS[1:])]})))
+  T.append(("float_nonlinearity.mlp_float_act", lambda r: base("mlp_float_act", {"Dense": _lim3(r)})))
   T.append(("default_padding.mlp_inline", lambda r: base(
       "mlp_inline", {"Dense": [r.choice(BITS[1:])], "default": r.choice([3, 4, 6, [4, 6, 3], [8, 4, 8, 4], [6, 3, 8, 4]])},
       layer_indexes=r.choice([[1, 2, 3], [1, 3, 4, 5], [2, 4]]))))
